@@ -676,8 +676,20 @@ class Effects:
                             add_store(n, t.value, 'del item')
                 elif isinstance(n, ast.If):
                     effects_of_expr_nodes(n.test)
-                    visit(n.body, False)
-                    visit(n.orelse, False)
+                    if strong:
+                        # each arm sees its own rebindings (x = list(x); x[0] = ... inside the arm stores into the copy);
+                        # the two arms are joined afterwards
+                        before = {k_: set(v_) for k_, v_ in env.items()}
+                        visit(n.body, True)
+                        after_body = {k_: set(v_) for k_, v_ in env.items()}
+                        env.clear()
+                        env.update({k_: set(v_) for k_, v_ in before.items()})
+                        visit(n.orelse, True)
+                        for k_, v_ in after_body.items():
+                            env[k_] = set(env.get(k_, set())) | v_
+                    else:
+                        visit(n.body, False)
+                        visit(n.orelse, False)
                 elif isinstance(n, (ast.For, ast.AsyncFor)):
                     effects_of_expr_nodes(n.iter)
                     for _ in range(2):
